@@ -123,33 +123,62 @@ func hasPointers(t reflect.Type) bool {
 	return true
 }
 
-// layoutIssue says why S cannot be viewed as T ("" = field faithful and inside the value).
+// fieldPair: a field of the view type and the field of the source type that occupies the same bytes.
+type fieldPair struct{ T, S int }
+
+// sizedFields lists the fields that occupy memory (zero-size fields - markers such as [0]func(), struct{} - take none and are
+// not properties), in offset order.
+func sizedFields(t reflect.Type) []int {
+	var out []int
+	for i := 0; i < t.NumField(); i++ {
+		if t.Field(i).Type.Size() > 0 {
+			out = append(out, i)
+		}
+	}
+	return out
+}
+
+// alignedFields pairs the memory-occupying fields of T with those of S, in order. ok=false if T has more of them.
+func alignedFields(s, t reflect.Type) (pairs []fieldPair, ok bool) {
+	sf, tf := sizedFields(s), sizedFields(t)
+	if len(tf) > len(sf) {
+		return nil, false
+	}
+	for k := range tf {
+		pairs = append(pairs, fieldPair{T: tf[k], S: sf[k]})
+	}
+	return pairs, true
+}
+
+// layoutIssue says why S cannot be viewed as T ("" = field faithful and inside the value). Fields are matched by the memory they
+// occupy, not by their index in the declaration: zero-size fields may come and go on either side.
 func layoutIssue(s, t reflect.Type) (class, detail string) {
 	if t.Size() > s.Size() {
 		return "wider-than-source", fmt.Sprintf("%s is %d bytes, the source %s only %d", t.Name(), t.Size(), s.Name(), s.Size())
 	}
-	if t.NumField() > s.NumField() {
-		return "more-fields-than-source", fmt.Sprintf("%s has %d fields, %s %d", t.Name(), t.NumField(), s.Name(), s.NumField())
+	pairs, ok := alignedFields(s, t)
+	if !ok {
+		return "more-fields-than-source", fmt.Sprintf("%s has %d fields that occupy memory, %s %d", t.Name(), len(sizedFields(t)), s.Name(), len(sizedFields(s)))
 	}
-	for i := 0; i < t.NumField(); i++ {
-		tf, sf := t.Field(i), s.Field(i)
+	for _, p := range pairs {
+		tf, sf := t.Field(p.T), s.Field(p.S)
 		if !sf.IsExported() || !tf.IsExported() {
 			// padding / private bookkeeping on either side: not a shared property; what matters is that the words line up
 			// and that no pointer-bearing field is laid over pointer-free memory or the reverse
 			if tf.Offset != sf.Offset || tf.Type.Size() != sf.Type.Size() || hasPointers(tf.Type) != hasPointers(sf.Type) {
-				return "padding-mismatch", fmt.Sprintf("field %d: %s.%s (%s) over %s.%s (%s)", i, t.Name(), tf.Name, tf.Type, s.Name(), sf.Name, sf.Type)
+				return "padding-mismatch", fmt.Sprintf("%s.%s (%s, offset %d) over %s.%s (%s, offset %d)", t.Name(), tf.Name, tf.Type, tf.Offset, s.Name(), sf.Name, sf.Type, sf.Offset)
 			}
 			continue
 		}
 		if tf.Offset != sf.Offset {
-			return "field-offset-differs", fmt.Sprintf("field %d: %s.%s at %d, %s.%s at %d", i, t.Name(), tf.Name, tf.Offset, s.Name(), sf.Name, sf.Offset)
+			return "field-offset-differs", fmt.Sprintf("%s.%s at %d, %s.%s at %d", t.Name(), tf.Name, tf.Offset, s.Name(), sf.Name, sf.Offset)
 		}
 		same := tf.Name == sf.Name || (tf.Name == "Items" && sf.Name == "OrderedItems") || (tf.Name == "OrderedItems" && sf.Name == "Items")
 		if !same {
-			return "field-name-differs", fmt.Sprintf("field %d: %s.%s vs %s.%s", i, t.Name(), tf.Name, s.Name(), sf.Name)
+			return "field-name-differs", fmt.Sprintf("offset %d: %s.%s vs %s.%s", tf.Offset, t.Name(), tf.Name, s.Name(), sf.Name)
 		}
 		if !reprCompatible(tf.Type, sf.Type) {
-			return "field-type-differs", fmt.Sprintf("field %d (%s): %s vs %s", i, tf.Name, tf.Type, sf.Type)
+			return "field-type-differs", fmt.Sprintf("offset %d (%s): %s vs %s", tf.Offset, tf.Name, tf.Type, sf.Type)
 		}
 	}
 	return "", ""
@@ -286,15 +315,16 @@ func runView(c *Ctx, vc viewCase, idx int) {
 		// the view is of a copy: compare with the item that was passed
 		srcV = reflect.ValueOf(item)
 	}
-	for i := 0; i < tT.NumField(); i++ {
-		if !tT.Field(i).IsExported() || !srcV.Type().Field(i).IsExported() {
+	pairs, _ := alignedFields(srcV.Type(), tT)
+	for _, p := range pairs {
+		if !tT.Field(p.T).IsExported() || !srcV.Type().Field(p.S).IsExported() {
 			continue // not a property the two types share
 		}
-		want := vmodel.Canon(srcV.Field(i).Interface(), vmodel.Exact)
-		got := vmodel.Canon(vv.Elem().Field(i).Interface(), vmodel.Exact)
+		want := vmodel.Canon(srcV.Field(p.S).Interface(), vmodel.Exact)
+		got := vmodel.Canon(vv.Elem().Field(p.T).Interface(), vmodel.Exact)
 		if !want.Equal(got) {
-			c.Fail(fmt.Sprintf("view|%s%s|%s|read|%s", vc.Via, vc.Helper.Name, pair, tT.Field(i).Name),
-				fmt.Sprintf("%s: field %s reads %s through the view, the original holds %s", label, tT.Field(i).Name, clipS(got.String(), 120), clipS(want.String(), 120)), map[string]any{"case": label})
+			c.Fail(fmt.Sprintf("view|%s%s|%s|read|%s", vc.Via, vc.Helper.Name, pair, tT.Field(p.T).Name),
+				fmt.Sprintf("%s: field %s reads %s through the view, the original holds %s", label, tT.Field(p.T).Name, clipS(got.String(), 120), clipS(want.String(), 120)), map[string]any{"case": label})
 		}
 	}
 	c.Count("field-reads", int64(tT.NumField()))
@@ -308,21 +338,22 @@ func runView(c *Ctx, vc viewCase, idx int) {
 	// write-through in both directions, field by field
 	g := vmodel.NewGen(newRand(int64(idx) + 5000))
 	g.Exact = true
-	for i := 0; i < tT.NumField(); i++ {
+	for _, p := range pairs {
+		i, si := p.T, p.S
 		f := tT.Field(i)
-		if f.Name == "ID" || f.Name == "Type" || !f.IsExported() || !srcPtr.Elem().Type().Field(i).IsExported() {
+		if f.Name == "ID" || f.Name == "Type" || !f.IsExported() || !srcPtr.Elem().Type().Field(si).IsExported() {
 			continue
 		}
 		sh := firstShape(f.Type)
 		// through the view
 		g.SetShape(vv.Elem().Field(i), f.Type, sh)
-		a, b := vmodel.Canon(vv.Elem().Field(i).Interface(), vmodel.Exact), vmodel.Canon(srcPtr.Elem().Field(i).Interface(), vmodel.Exact)
+		a, b := vmodel.Canon(vv.Elem().Field(i).Interface(), vmodel.Exact), vmodel.Canon(srcPtr.Elem().Field(si).Interface(), vmodel.Exact)
 		if !a.Equal(b) {
 			c.Fail(fmt.Sprintf("view|%s%s|%s|write-through-view|%s", vc.Via, vc.Helper.Name, pair, f.Name), fmt.Sprintf("%s: a write to %s through the view is not seen by the original", label, f.Name), map[string]any{"case": label})
 		}
 		// through the original
-		g.SetShape(srcPtr.Elem().Field(i), srcPtr.Elem().Type().Field(i).Type, sh)
-		a, b = vmodel.Canon(vv.Elem().Field(i).Interface(), vmodel.Exact), vmodel.Canon(srcPtr.Elem().Field(i).Interface(), vmodel.Exact)
+		g.SetShape(srcPtr.Elem().Field(si), srcPtr.Elem().Type().Field(si).Type, sh)
+		a, b = vmodel.Canon(vv.Elem().Field(i).Interface(), vmodel.Exact), vmodel.Canon(srcPtr.Elem().Field(si).Interface(), vmodel.Exact)
 		if !a.Equal(b) {
 			c.Fail(fmt.Sprintf("view|%s%s|%s|write-through-original|%s", vc.Via, vc.Helper.Name, pair, f.Name), fmt.Sprintf("%s: a write to %s on the original is not seen through the view", label, f.Name), map[string]any{"case": label})
 		}
@@ -456,11 +487,13 @@ func runForeign(c *Ctx, fc foreignCase) {
 						continue
 					}
 					srcV := srcPtr.Elem()
-					for i := 0; i < tT.NumField(); i++ {
-						if !tT.Field(i).IsExported() {
+					fpairs, _ := alignedFields(sT, tT)
+					for _, fp := range fpairs {
+						i := fp.T
+						if !tT.Field(i).IsExported() || !sT.Field(fp.S).IsExported() {
 							continue
 						}
-						want, got := vmodel.Canon(srcV.Field(i).Interface(), vmodel.Exact), vmodel.Canon(vv.Elem().Field(i).Interface(), vmodel.Exact)
+						want, got := vmodel.Canon(srcV.Field(fp.S).Interface(), vmodel.Exact), vmodel.Canon(vv.Elem().Field(i).Interface(), vmodel.Exact)
 						if !want.Equal(got) {
 							c.Fail(fmt.Sprintf("view|%s%s|foreign->%s|read|%s", via, h.Name, tT.Name(), tT.Field(i).Name), fmt.Sprintf("%s: field %s reads %s through the view, the original holds %s", label, tT.Field(i).Name, clipS(got.String(), 120), clipS(want.String(), 120)), map[string]any{"case": label})
 						}
